@@ -147,7 +147,7 @@ func main() {
 		}
 		enc := json.NewEncoder(os.Stdout)
 		enc.SetIndent("", "  ")
-		enc.Encode(cf)
+		mustEncode(enc, cf)
 		return
 	}
 
@@ -163,7 +163,7 @@ func main() {
 		}
 		enc := json.NewEncoder(os.Stdout)
 		enc.SetIndent("", "  ")
-		enc.Encode(result)
+		mustEncode(enc, result)
 		if result.InvalidBlocks > 0 {
 			os.Exit(1)
 		}
@@ -180,7 +180,7 @@ func main() {
 			}
 			enc := json.NewEncoder(os.Stdout)
 			enc.SetIndent("", "  ")
-			enc.Encode(result)
+			mustEncode(enc, result)
 		} else {
 			results, err := pgdump.ScanDroppedColumns(dataDir)
 			if err != nil {
@@ -189,7 +189,7 @@ func main() {
 			}
 			enc := json.NewEncoder(os.Stdout)
 			enc.SetIndent("", "  ")
-			enc.Encode(results)
+			mustEncode(enc, results)
 		}
 		return
 	}
@@ -204,14 +204,14 @@ func main() {
 				fmt.Fprintf(os.Stderr, "Error: %v\n", err)
 				os.Exit(1)
 			}
-			enc.Encode(results)
+			mustEncode(enc, results)
 		} else {
 			results, err := pgdump.FindSequences(dataDir, showSequences)
 			if err != nil {
 				fmt.Fprintf(os.Stderr, "Error: %v\n", err)
 				os.Exit(1)
 			}
-			enc.Encode(results)
+			mustEncode(enc, results)
 		}
 		return
 	}
@@ -226,14 +226,14 @@ func main() {
 				fmt.Fprintf(os.Stderr, "Error: %v\n", err)
 				os.Exit(1)
 			}
-			enc.Encode(rm)
+			mustEncode(enc, rm)
 		} else if showRelmap == "all" {
 			info, err := pgdump.ReadAllRelMaps(dataDir)
 			if err != nil {
 				fmt.Fprintf(os.Stderr, "Error: %v\n", err)
 				os.Exit(1)
 			}
-			enc.Encode(info)
+			mustEncode(enc, info)
 		} else {
 			// Assume it's a database OID
 			oid, err := strconv.ParseUint(showRelmap, 10, 32)
@@ -246,7 +246,7 @@ func main() {
 				fmt.Fprintf(os.Stderr, "Error: %v\n", err)
 				os.Exit(1)
 			}
-			enc.Encode(rm)
+			mustEncode(enc, rm)
 		}
 		return
 	}
@@ -304,7 +304,7 @@ func main() {
 		}
 		enc := json.NewEncoder(os.Stdout)
 		enc.SetIndent("", "  ")
-		enc.Encode(findings)
+		mustEncode(enc, findings)
 		return
 	}
 
@@ -320,7 +320,7 @@ func main() {
 		}
 		enc := json.NewEncoder(os.Stdout)
 		enc.SetIndent("", "  ")
-		enc.Encode(results)
+		mustEncode(enc, results)
 		return
 	}
 
@@ -333,7 +333,7 @@ func main() {
 		}
 		enc := json.NewEncoder(os.Stdout)
 		enc.SetIndent("", "  ")
-		enc.Encode(summary)
+		mustEncode(enc, summary)
 		return
 	}
 
@@ -370,7 +370,17 @@ func main() {
 	default:
 		enc := json.NewEncoder(os.Stdout)
 		enc.SetIndent("", "  ")
-		enc.Encode(result)
+		mustEncode(enc, result)
+	}
+}
+
+// mustEncode writes v with enc; an encoding error (a time or float the JSON encoder cannot
+// represent) is reported on stderr with exit code 1 instead of being dropped, which left
+// stdout empty and the exit code 0.
+func mustEncode(enc *json.Encoder, v interface{}) {
+	if err := enc.Encode(v); err != nil {
+		fmt.Fprintf(os.Stderr, "Error encoding JSON: %v\n", err)
+		os.Exit(1)
 	}
 }
 
@@ -396,7 +406,7 @@ func parseToastVerbose(path string) {
 	
 	enc := json.NewEncoder(os.Stdout)
 	enc.SetIndent("", "  ")
-	enc.Encode(info)
+	mustEncode(enc, info)
 }
 
 func parseBlockRangeWithSegment(path, rangeStr string, segOpts *pgdump.SegmentOptions) {
@@ -425,7 +435,7 @@ func parseBlockRangeWithSegment(path, rangeStr string, segOpts *pgdump.SegmentOp
 	
 	enc := json.NewEncoder(os.Stdout)
 	enc.SetIndent("", "  ")
-	enc.Encode(blocks)
+	mustEncode(enc, blocks)
 }
 
 func parseBinaryDump(path, rangeStr string) {
@@ -468,7 +478,7 @@ func parseIndexFile(path string) {
 	
 	enc := json.NewEncoder(os.Stdout)
 	enc.SetIndent("", "  ")
-	enc.Encode(info)
+	mustEncode(enc, info)
 }
 
 func parseSingle(path string) {
